@@ -316,7 +316,7 @@ func C05(tier string) {
 	debug.SetGCPercent(800) // each fresh PyPI resolver allocates 30 000 cache slots; collect less often
 	seqDev, schedDev, bound := 2, 2, 2
 	if quick {
-		run.SetBudget(150 * time.Second)
+		run.SetBudget(240 * time.Second)
 	} else {
 		seqDev, schedDev, bound = 3, 2, 3
 		run.SetBudget(2400 * time.Second)
@@ -458,6 +458,33 @@ func C05(tier string) {
 		if len(sampleU.Vers) > 0 {
 			run.Sample(map[string]any{"system": sp.Name, "base": sp.Base, "universe": sampleU})
 		}
+	}
+	// npm universes with bundled versions (derived packages), built by the C18 model from its service contents: the
+	// resolver's bundle paths read and clone client-owned requirement types
+	{
+		slots, build := c18Space()
+		bdev := 3
+		if quick {
+			bdev = 2
+		}
+		var batch []univ.Universe
+		univ.Enumerate(slots, bdev, func(picks []univ.Pick) {
+			if s, ok := build(picks); ok {
+				batch = append(batch, c18Model(s))
+			}
+		})
+		var r0 int64
+		core.ParFor(len(batch), func(i int) {
+			fails, n := c05Check(batch[i], true)
+			atomic.AddInt64(&r0, int64(n))
+			for _, f := range fails {
+				clause, _, _ := strings.Cut(f, ":")
+				run.Fail(core.Join("seq", clause, batch[i].Encode()), f)
+			}
+		})
+		universes += int64(len(batch))
+		resolves += r0
+		per["NPM/bundles"] = map[string]any{"universes": len(batch), "resolves": r0, "sequential_universe_deviations": bdev, "note": "sequential clauses only (histories, insertion orders, no-write snapshots)"}
 	}
 	run.Cov["states"] = universes
 	run.Cov["transitions"] = resolves + points
